@@ -21,15 +21,16 @@ import (
 )
 
 type tcase struct {
-	Kind       string   `json:"kind"`
-	Grp        string   `json:"grp"`
-	Cs         []string `json:"cs"`
-	On         bool     `json:"on"`
-	Accept     bool     `json:"accept"`
-	ImplAccept bool     `json:"implAccept"`
-	A          string   `json:"a"`
-	B          string   `json:"b"`
-	C          string   `json:"c"`
+	Kind      string   `json:"kind"`
+	Grp       string   `json:"grp"`
+	Cs        []string `json:"cs"`
+	On        bool     `json:"on"`
+	Accept    bool     `json:"accept"`
+	OldAccept bool     `json:"oldAccept"` // the decision of the code before the repair 57c7a7b (classifies a regression)
+	Must      bool     `json:"must"`      // the model requires this class tuple to be materialised
+	A         string   `json:"a"`
+	B         string   `json:"b"`
+	C         string   `json:"c"`
 }
 
 // curve parameters: the definition of the groups (constants.go, curve.go, twist.go)
@@ -53,6 +54,8 @@ func onCurveG1(x, y *big.Int) bool {
 }
 
 type fp2 struct{ i, r *big.Int } // i*I + r, I^2 = -1
+
+var mustSamples []string // must-materialise class tuples that could not be built (guarded by the cases' mutex)
 
 func fmul(a, b fp2) fp2 {
 	// (ai I + ar)(bi I + br) = (ai br + ar bi) I + (ar br - ai bi)
@@ -127,12 +130,155 @@ func residueOf(class string) *big.Int {
 
 func sqrtMod(a *big.Int) *big.Int { return new(big.Int).ModSqrt(mod(a), fieldP) }
 
-// cube roots modulo p (p = 1 mod 3): a^((p+2)/9)-style shortcuts do not apply in general; search by exponentiation
-// with the cofactor is avoided -- a coordinate class that needs a cube root is simply reported as unrealised.
+// ---- GF(p^2) = GF(p)[I]/(I^2+1) helpers of the harness (p = 3 mod 4)
+var (
+	fzero   = fp2{new(big.Int), new(big.Int)}
+	fone    = fp2{new(big.Int), big.NewInt(1)}
+	twistB2 = fp2{tbI, tbR}
+)
 
-// pointsG1 yields candidate affine points of G1 (residues), including ones that the classes force.
-func candidateG1(r *rand.Rand, cs []string) (x, y *big.Int, ok bool) {
-	fx, fy := residueOf(cs[0]), residueOf(cs[1])
+func fsub(a, b fp2) fp2 { return fp2{mod(new(big.Int).Sub(a.i, b.i)), mod(new(big.Int).Sub(a.r, b.r))} }
+func feq(a, b fp2) bool { return mod(a.i).Cmp(mod(b.i)) == 0 && mod(a.r).Cmp(mod(b.r)) == 0 }
+func fexp(a fp2, e *big.Int) fp2 {
+	res := fone
+	for i := e.BitLen() - 1; i >= 0; i-- {
+		res = fmul(res, res)
+		if e.Bit(i) == 1 {
+			res = fmul(res, a)
+		}
+	}
+	return res
+}
+
+// fsqrt: a square root of a in GF(p^2), or ok=false.
+func fsqrt(a fp2) (fp2, bool) {
+	a = fp2{mod(a.i), mod(a.r)}
+	var x fp2
+	if a.i.Sign() == 0 {
+		if s := sqrtMod(a.r); s != nil {
+			x = fp2{new(big.Int), s}
+		} else if s := sqrtMod(new(big.Int).Neg(a.r)); s != nil {
+			x = fp2{s, new(big.Int)} // (sI)^2 = -s^2
+		} else {
+			return fzero, false
+		}
+	} else {
+		n := sqrtMod(new(big.Int).Add(new(big.Int).Mul(a.r, a.r), new(big.Int).Mul(a.i, a.i))) // sqrt of the norm
+		if n == nil {
+			return fzero, false
+		}
+		half := new(big.Int).ModInverse(big.NewInt(2), fieldP)
+		var x0 *big.Int
+		for _, sgn := range []int64{1, -1} {
+			d := mod(new(big.Int).Mul(new(big.Int).Add(a.r, new(big.Int).Mul(big.NewInt(sgn), n)), half))
+			if x0 = sqrtMod(d); x0 != nil && x0.Sign() != 0 {
+				break
+			}
+			x0 = nil
+		}
+		if x0 == nil {
+			return fzero, false
+		}
+		x1 := mod(new(big.Int).Mul(a.i, new(big.Int).ModInverse(mod(new(big.Int).Lsh(x0, 1)), fieldP)))
+		x = fp2{x1, x0}
+	}
+	if !feq(fmul(x, x), a) {
+		return fzero, false
+	}
+	return x, true
+}
+
+// fcbrt: a cube root of c in GF(p^2) (Adleman-Manders-Miller for q-1 = 3^s t), or ok=false.  For c in GF(p) that is a
+// cube there, the result lies in GF(p) (x^3 - c splits over GF(p) because p = 1 mod 3).
+var cbrtSetup struct {
+	s    int
+	t, m *big.Int
+	z    fp2 // generator of the 3-Sylow subgroup
+	k    int // exponent multiplier: root = c^m * z^(-k*e/3)
+}
+
+func init() {
+	q1 := new(big.Int).Sub(new(big.Int).Mul(fieldP, fieldP), big.NewInt(1))
+	t := new(big.Int).Set(q1)
+	s := 0
+	three := big.NewInt(3)
+	for new(big.Int).Mod(t, three).Sign() == 0 {
+		t.Div(t, three)
+		s++
+	}
+	e3 := new(big.Int).Div(q1, three)
+	var g fp2
+	for k := int64(1); ; k++ {
+		g = fp2{big.NewInt(1), big.NewInt(k)}
+		if !feq(fexp(g, e3), fone) {
+			break
+		}
+	}
+	cbrtSetup.s, cbrtSetup.t, cbrtSetup.z = s, t, fexp(g, t)
+	if new(big.Int).Mod(t, three).Int64() == 2 {
+		cbrtSetup.m = new(big.Int).Div(new(big.Int).Add(t, big.NewInt(1)), three)
+		cbrtSetup.k = 1
+	} else {
+		cbrtSetup.m = new(big.Int).Div(new(big.Int).Add(new(big.Int).Lsh(t, 1), big.NewInt(1)), three)
+		cbrtSetup.k = 2
+	}
+}
+
+func fcbrt(c fp2) (fp2, bool) {
+	c = fp2{mod(c.i), mod(c.r)}
+	if feq(c, fzero) {
+		return fzero, true
+	}
+	u := fexp(c, cbrtSetup.t)
+	ord := 1
+	for i := 0; i < cbrtSetup.s; i++ {
+		ord *= 3
+	}
+	e := -1
+	zp := fone
+	for i := 0; i < ord; i++ { // discrete logarithm in the group of order 3^s (9 here)
+		if feq(zp, u) {
+			e = i
+			break
+		}
+		zp = fmul(zp, cbrtSetup.z)
+	}
+	if e < 0 || e%3 != 0 {
+		return fzero, false // not a cube
+	}
+	back := (ord - (cbrtSetup.k*e/3)%ord) % ord
+	x := fmul(fexp(c, cbrtSetup.m), fexp(cbrtSetup.z, big.NewInt(int64(back))))
+	if !feq(fmul(fmul(x, x), x), c) {
+		return fzero, false
+	}
+	return x, true
+}
+
+// omega: a primitive cube root of unity (in GF(p)).
+func omega() fp2 {
+	return fexp(cbrtSetup.z, big.NewInt(int64(pow3(cbrtSetup.s-1))))
+}
+func pow3(n int) int {
+	r := 1
+	for i := 0; i < n; i++ {
+		r *= 3
+	}
+	return r
+}
+
+// numberFacts: what the model's Must relies on for G1 (checked on the real p, not assumed).
+func numberFacts() error {
+	if sqrtMod(big.NewInt(3)) != nil {
+		return fmt.Errorf("3 is a square modulo p: G1 would have points with x = 0, the model's Must table is wrong")
+	}
+	if r, ok := fcbrt(fp2{new(big.Int), mod(big.NewInt(-3))}); ok && r.i.Sign() == 0 {
+		return fmt.Errorf("-3 is a cube modulo p: G1 would have points with y = 0")
+	}
+	return nil
+}
+
+// solveG1 returns an affine point of y^2 = x^3 + 3 whose coordinates have the forced residues (nil = free), or ok=false.
+func solveG1(r *rand.Rand, fx, fy *big.Int) (x, y *big.Int, ok bool) {
 	switch {
 	case fx != nil && fy != nil:
 		return fx, fy, onCurveG1(fx, fy)
@@ -146,7 +292,14 @@ func candidateG1(r *rand.Rand, cs []string) (x, y *big.Int, ok bool) {
 		}
 		return fx, y, true
 	case fy != nil:
-		return nil, nil, false // needs a cube root
+		c, ok := fcbrt(fp2{new(big.Int), mod(new(big.Int).Sub(new(big.Int).Mul(fy, fy), big.NewInt(3)))})
+		if !ok || c.i.Sign() != 0 {
+			return nil, nil, false
+		}
+		for k := r.Intn(3); k > 0; k-- {
+			c = fmul(c, omega())
+		}
+		return c.r, fy, true
 	}
 	k := new(big.Int).Rand(r, bn256.Order)
 	if k.Sign() == 0 {
@@ -156,6 +309,62 @@ func candidateG1(r *rand.Rand, cs []string) (x, y *big.Int, ok bool) {
 	return new(big.Int).SetBytes(m[:32]), new(big.Int).SetBytes(m[32:]), true
 }
 
+// solveG2 returns a point of the twist y^2 = x^3 + 3/xi over GF(p^2) whose components (x.i, x.r, y.i, y.r) have the
+// forced residues (nil = free).  Components are forced either in x only (y by a square root) or in y only (x by a cube
+// root); a free component of the forced coordinate is drawn at random until the root exists.
+func solveG2(r *rand.Rand, f [4]*big.Int) (res []*big.Int, ok bool) {
+	inX, inY := f[0] != nil || f[1] != nil, f[2] != nil || f[3] != nil
+	pick := func(v *big.Int) *big.Int {
+		if v != nil {
+			return v
+		}
+		return new(big.Int).Rand(r, fieldP)
+	}
+	switch {
+	case !inX && !inY:
+		k := new(big.Int).Rand(r, bn256.Order)
+		if k.Sign() == 0 {
+			k.SetInt64(5)
+		}
+		m := new(bn256.G2).ScalarBaseMult(k).Marshal()
+		for i := 0; i < 4; i++ {
+			res = append(res, new(big.Int).SetBytes(m[32*i:32*i+32]))
+		}
+		return res, true
+	case inX && inY:
+		return nil, false
+	case inX:
+		for try := 0; try < 40; try++ {
+			x := fp2{pick(f[0]), pick(f[1])}
+			y, ok := fsqrt(fadd(fmul(fmul(x, x), x), twistB2))
+			if ok {
+				if r.Intn(2) == 0 {
+					y = fsub(fzero, y)
+				}
+				return []*big.Int{x.i, x.r, y.i, y.r}, true
+			}
+			if f[0] != nil && f[1] != nil {
+				break
+			}
+		}
+	default:
+		for try := 0; try < 60; try++ {
+			y := fp2{pick(f[2]), pick(f[3])}
+			x, ok := fcbrt(fsub(fmul(y, y), twistB2))
+			if ok {
+				for k := r.Intn(3); k > 0; k-- {
+					x = fmul(x, omega())
+				}
+				return []*big.Int{x.i, x.r, y.i, y.r}, true
+			}
+			if f[2] != nil && f[3] != nil {
+				break
+			}
+		}
+	}
+	return nil, false
+}
+
 func TestCases(t *testing.T) {
 	out := vutil.NewOut()
 	defer func() {
@@ -163,6 +372,9 @@ func TestCases(t *testing.T) {
 			t.Fatal(err)
 		}
 	}()
+	if err := numberFacts(); err != nil {
+		t.Fatal(err)
+	}
 	reps := 1
 	if vutil.Thorough() {
 		reps = 10
@@ -224,6 +436,9 @@ func TestCases(t *testing.T) {
 	for k, v := range unreal {
 		out.Extra["unrealised_"+k] = v
 	}
+	if len(mustSamples) > 0 {
+		out.Extra["unrealised_must_samples"] = mustSamples
+	}
 	for k, v := range stats {
 		out.Extra[k] = v
 	}
@@ -242,16 +457,28 @@ func encCase(c *tcase, r *rand.Rand, out *vutil.Out, viol func(string, string, a
 		}
 	}
 	found := false
-	for try := 0; try < 60 && !found; try++ {
+	for try := 0; try < 80 && !found; try++ {
 		res = nil
-		if c.Grp == "G1" {
-			x, y, ok := candidateG1(r, c.Cs)
+		var forced [4]*big.Int
+		for i, k := range c.Cs {
+			forced[i] = residueOf(k)
+		}
+		if !c.On {
+			// any residues the classes allow (made off-curve below)
+			for i := range c.Cs {
+				if forced[i] != nil {
+					res = append(res, forced[i])
+				} else {
+					res = append(res, new(big.Int).Rand(r, fieldP))
+				}
+			}
+		} else if c.Grp == "G1" {
+			x, y, ok := solveG1(r, forced[0], forced[1])
 			if !ok && c.On {
-				break
+				break // the equations have no solution: deterministic
 			}
 			if !ok {
-				// off-curve wanted: any residues the classes allow
-				x, y = residueOf(c.Cs[0]), residueOf(c.Cs[1])
+				x, y = forced[0], forced[1]
 				if x == nil {
 					x = new(big.Int).Rand(r, fieldP)
 				}
@@ -261,23 +488,20 @@ func encCase(c *tcase, r *rand.Rand, out *vutil.Out, viol func(string, string, a
 			}
 			res = []*big.Int{x, y}
 		} else {
-			k := new(big.Int).Rand(r, bn256.Order)
-			if k.Sign() == 0 {
-				k.SetInt64(5)
+			var ok bool
+			res, ok = solveG2(r, forced)
+			if !ok && c.On {
+				break
 			}
-			m := new(bn256.G2).ScalarBaseMult(k).Marshal()
-			for i := 0; i < 4; i++ {
-				res = append(res, new(big.Int).SetBytes(m[32*i:32*i+32]))
-			}
-			forced := false
-			for i, k := range c.Cs {
-				if f := residueOf(k); f != nil {
-					res[i] = f
-					forced = true
+			if !ok {
+				res = nil
+				for i := 0; i < 4; i++ {
+					if forced[i] != nil {
+						res = append(res, forced[i])
+					} else {
+						res = append(res, new(big.Int).Rand(r, fieldP))
+					}
 				}
-			}
-			if forced && c.On {
-				break // a twist point with a prescribed coordinate: not searched for
 			}
 		}
 		if !c.On {
@@ -308,9 +532,25 @@ func encCase(c *tcase, r *rand.Rand, out *vutil.Out, viol func(string, string, a
 	}
 	if !found {
 		mu.Lock()
-		unreal[c.Grp]++
+		if c.Must {
+			unreal["must_"+c.Grp]++
+			if len(mustSamples) < 5 {
+				mustSamples = append(mustSamples, fmt.Sprintf("%s %v on=%v", c.Grp, c.Cs, c.On))
+			}
+		} else {
+			unreal["optional_"+c.Grp]++
+		}
 		mu.Unlock()
 		return
+	}
+	if c.On && !allZero {
+		for i, k := range c.Cs {
+			if k == "p" || k == "zero" {
+				mu.Lock()
+				stats[fmt.Sprintf("zero_component_on_curve_%s_%d_%s", c.Grp, i, k)]++
+				mu.Unlock()
+			}
+		}
 	}
 	var enc []byte
 	for i, k := range c.Cs {
@@ -347,7 +587,7 @@ func encCase(c *tcase, r *rand.Rand, out *vutil.Out, viol func(string, string, a
 		if got && allZero && !bytes.Equal(re, enc) {
 			viol("bn256-roundtrip:"+c.Grp, fmt.Sprintf("%s: the encoding of infinity does not re-marshal to itself", c.Grp), detail)
 		}
-	case got && !c.Accept && c.ImplAccept:
+	case got && !c.Accept && c.OldAccept:
 		// a point on the curve with a coordinate >= p: a second accepted encoding of the same element
 		mu.Lock()
 		stats["noncanonical_accepted_"+c.Grp]++
